@@ -83,9 +83,21 @@ def obligations(R, tier, seed):
              "untrusted-base-never-deletes": z3.Implies(z3.Not(trust), z3.And(*[z3.Implies(i < out.len, z3.And(it.f[1].discr != A["DeleteA"], it.f[1].discr != A["DeleteB"]))
                                                                                 for i, it in enumerate(out.items)]))}
 
-    def witness(name, model, neg):
-        names = ["p%d" % u for u in range(U)]
+    # the model's paths are abstract ids with one order; a counterexample is tried under several NAMINGS of the ids (each list
+    # ascending in Path order, as the model assumes): plain names, names differing only in case, a name that is a prefix of
+    # the next, names around a separator - a defect may depend on what the names look like
+    NAMINGS = [["p%d" % u for u in range(4)], ["A", "a", "b", "c"], ["N", "n", "n.x", "o"], ["d/x", "d.x", "e", "f"], ["Ab", "aB", "ab", "b"], ["x y", "x'y", "x\\y", "y"]]
 
+    def witness(name, model, neg):
+        last = None
+        for names in NAMINGS:
+            r = witness_named(model, names[:U])
+            if r["confirmed"]:
+                return r
+            last = r
+        return last
+
+    def witness_named(model, names):
         def fpv(m, u):
             return [bytes(model_int(model, b.t) for b in fps[(m, u)][1]).hex(), 1 if model_bool(model, fps[(m, u)][2]) else 0]
         case = {"fn": "reconcile", "trust_base": model_bool(model, trust)}
@@ -93,7 +105,7 @@ def obligations(R, tier, seed):
             case[key] = [[names[u], fpv(m, u)] for u in range(U) if model_bool(model, pres[(m, u)])]
         want = []
         da, db, dz = (dict((k, tuple(v)) for k, v in case[x]) for x in ("a", "b", "base"))
-        for n in sorted(set(da) | set(db)):
+        for n in sorted(set(da) | set(db), key=lambda p_: p_.split("/")):
             act = ref_table(da.get(n), db.get(n), dz.get(n) if case["trust_base"] else None)
             if act != "Noop":
                 want.append([n, act])
@@ -104,7 +116,7 @@ def obligations(R, tier, seed):
             case["observed"] = res
             return {"confirmed": True, "replay_path": R.save_replay("C18/reconcile-tree", case), "key": "C18/reconcile-tree",
                     "detail": "reconcile(%s): native %s, per-path table over the union %s" % (json.dumps(case)[:200], json.dumps(bad)[:200], want)}
-        return {"confirmed": False, "detail": "native reconcile agrees with the per-path table on the model (encoding/std-model problem)"}
+        return {"confirmed": False, "detail": "native reconcile agrees with the per-path table on the model under %d namings of the paths (encoding/std-model problem)" % len(NAMINGS)}
 
     prover.prove(ex, goals, "C18/reconcile-tree",
                  "universe of %d ordered paths; presence and full 32-byte fingerprints + entry types of a, b, base symbolic; trust_base symbolic; loop unrolled %d times" % (U, ex.K),
